@@ -1,7 +1,8 @@
 """C02 - extracting or splitting a sequence partitions its notes and carries state over (DESIGN.md §4 C02)."""
 import ast
 
-from sa import own, cov, nf, astutil as U
+from sa import own, cov, nf, roles, astutil as U
+from sa.roles import Canon
 from sa.loader import norm_text, dotted
 from sa.selftest import Mutant
 
@@ -399,6 +400,22 @@ def trim(ctx):
 
 
 # ------------------------------------------------------------------ S6
+def _is_sorted_notes(v, st):
+  return isinstance(v, ast.Call) and dotted(v.func) == 'sorted' and v.args and '.notes' in norm_text(v.args[0])
+
+
+def _main_loop_target(fn):
+  return [n.target.id for n in fn.body if isinstance(n, ast.For) and isinstance(n.target, ast.Name)]
+
+
+SPLITTER_ROLES = {
+    'notes_by_start_time': lambda fn: roles.assigned_where(fn, _is_sorted_notes),
+    'note_idx': lambda fn: roles.assigned_where(fn, lambda v, st: isinstance(v, ast.Constant) and v.value == 0 and not isinstance(v.value, (bool, float))),
+    'notes_crossing_split': lambda fn: roles.assigned_where(fn, lambda v, st: isinstance(v, ast.List) and not v.elts),
+    'valid_split_times': lambda fn: roles.assigned_where(fn, lambda v, st: isinstance(v, ast.List) and len(v.elts) == 1 and U.const_value(v.elts[0]) == 0),
+}
+
+
 def _crossing(ctx, fi, tvar_text, rule):
   fn = fi.node
   wh = next((n for n in ast.walk(fn) if isinstance(n, ast.While) and 'start_time' in norm_text(n.test)), None)
@@ -440,6 +457,11 @@ def _tail(ctx, fi, rule, listname):
 
 def split_hop(ctx):
   fi = ctx.func(SL + ':split_note_sequence')
+  spec = dict(SPLITTER_ROLES)
+  spec['split_times'] = lambda fn: roles.assigned_where(fn, lambda v, st: isinstance(v, ast.Call) and (dotted(v.func) == 'sorted' and norm_text(v.args[0]) == 'hop_size_seconds'
+                                                                                                   or (dotted(v.func) or '').endswith('arange')))
+  spec['split_time'] = _main_loop_target
+  fi = Canon(fi, roles.discover(fi, spec))
   fn = fi.node
   ar = [c for c in U.calls_in(fn) if (dotted(c.func) or '').endswith('arange')]
   ok = len(ar) == 1 and [norm_text(a) for a in ar[0].args] == ['hop_size_seconds', 'note_sequence.total_time', 'hop_size_seconds']
@@ -454,6 +476,11 @@ def split_hop(ctx):
 
 def split_time_changes(ctx):
   fi = ctx.func(SL + ':split_note_sequence_on_time_changes')
+  spec = dict(SPLITTER_ROLES)
+  for attr in ('numerator', 'denominator', 'qpm'):
+    spec['current_' + attr] = (lambda a: lambda fn: roles.assigned_where(fn, lambda v, st: isinstance(v, ast.Attribute) and v.attr == a and isinstance(v.value, ast.Name)))(attr)
+  spec['time_change'] = _main_loop_target
+  fi = Canon(fi, roles.discover(fi, spec))
   fn = fi.node
   _crossing(ctx, fi, 'time_change.time', 'SPLIT/time')
   _tail(ctx, fi, 'SPLIT/time', 'valid_split_times')
@@ -496,6 +523,13 @@ def split_time_changes(ctx):
 
 def split_silence(ctx):
   fi = ctx.func(SL + ':split_note_sequence_on_silence')
+  fi = Canon(fi, roles.discover(fi, {
+      'notes_by_start_time': SPLITTER_ROLES['notes_by_start_time'],
+      'split_times': SPLITTER_ROLES['valid_split_times'],
+      'last_active_time': lambda fn: sorted(set(n.id for lp in fn.body if isinstance(lp, ast.For) for s in lp.body if isinstance(s, ast.If) and
+                                                    'gap_seconds' in U.names_in(s.test) for n in ast.walk(s.test) if isinstance(n, ast.Name)) &
+                                                set(t.id for lp in fn.body if isinstance(lp, ast.For) for s in lp.body for t, _v, _o in U.store_targets(s) if isinstance(t, ast.Name))),
+  }))
   fn = fi.node
   loop = next((n for n in fn.body if isinstance(n, ast.For)), None)
   ctx.require(loop is not None, 'split_note_sequence_on_silence: loop not found')
@@ -566,3 +600,6 @@ MUTANTS = [
     Mutant('end offset terms reordered', F, '        sequence.total_time - start_time - subsequence.total_time)', '        sequence.total_time - subsequence.total_time - start_time)', expect='silent'),
     Mutant('skip condition in De Morgan form', F, '    if not (skip_splits_inside_notes and notes_crossing_split):\n      valid_split_times.append(split_time)', '    if not skip_splits_inside_notes or not notes_crossing_split:\n      valid_split_times.append(split_time)', expect='silent'),
 ]
+
+RENAME_FUNCS = [(F, n) for n in ('trim_note_sequence', '_extract_subsequences', 'extract_subsequence', 'split_note_sequence',
+                                 'split_note_sequence_on_time_changes', 'split_note_sequence_on_silence')]
